@@ -70,6 +70,7 @@ pub struct CaseStats {
     pub aborts: usize,
     pub noops: usize,
     pub extends: usize,
+    pub batches: usize,
     pub stream_items: usize,
     pub out_of_order: usize,
     pub done_checked: usize,
@@ -203,6 +204,21 @@ pub fn compare(pred: &Pred, obs: &Obs, caps: &Caps, host: &str, step: usize) -> 
             }
         }
     }
+    for (p, o) in pred.batch_resolve.iter().zip(&obs.batch_resolve_ok) {
+        match (p, o) {
+            (Some(Expect::Ok), Some(false)) => push(
+                "resolve/rejected-but-should-be-accepted",
+                "a resolution (inside a batch) that the declared arity allows was rejected",
+                json!({}),
+            ),
+            (Some(Expect::Err), Some(true)) => push(
+                "resolve/accepted-but-should-be-rejected",
+                "a resolution (inside a batch) that the declared arity forbids was accepted",
+                json!({}),
+            ),
+            _ => {}
+        }
+    }
     if let (Some(p), Some(o)) = (pred.resolve, obs.resolve_ok) {
         match (p, o) {
             (Expect::Ok, false) => push(
@@ -296,6 +312,77 @@ fn choose_action(
     Some(a)
 }
 
+/// With some probability, turn `first` into a batch with a second action on another request,
+/// provided both orders lead to the same outputs, verdicts and complete model state in every
+/// model (the operations commute), so that "both before the next run" has one meaning.
+fn maybe_batch(first: Action, models: &[Model], rng: &mut Rng, cfg: &RunCfg, batch_cap: u8, next_val: &mut u64) -> Action {
+    if batch_cap == 0 || !rng.chance(1, 5) {
+        return first;
+    }
+    let key_of = |a: &Action| match a {
+        Action::Resolve { site, arg, .. } | Action::DropReq { site, arg } => Some((*site, *arg)),
+        _ => None,
+    };
+    let Some(k1) = key_of(&first) else { return first };
+    let cands: Vec<_> = models[0]
+        .outstanding()
+        .into_iter()
+        .filter(|o| o.key != k1 && o.kind != KIND_NEVER && !(o.kind == KIND_ONCE && o.resolved_once))
+        .collect();
+    if cands.is_empty() {
+        return first;
+    }
+    let o = rng.pick(&cands).clone();
+    let second = if cfg.drop && rng.chance(1, 2) {
+        Action::DropReq { site: o.key.0, arg: o.key.1 }
+    } else {
+        *next_val += 1;
+        Action::Resolve { site: o.key.0, arg: o.key.1, val: *next_val }
+    };
+    // hosts that can only batch "drops, then one call" need the drop first
+    let (a, b) = match (&first, &second) {
+        (_, Action::DropReq { .. }) => (second.clone(), first.clone()),
+        _ => (first.clone(), second.clone()),
+    };
+    if batch_cap == 1 && !matches!(a, Action::DropReq { .. }) {
+        return first;
+    }
+    for m in models {
+        let mut m1 = m.clone();
+        let mut m2 = m.clone();
+        let (pa1, pb1) = (m1.act(&a), m1.act(&b));
+        let (pb2, pa2) = (m2.act(&b), m2.act(&a));
+        let sorted_fx = |x: &crate::model::Pred, y: &crate::model::Pred| {
+            let mut e: Vec<_> = x.effects.iter().chain(&y.effects).cloned().collect();
+            e.sort();
+            let mut v: Vec<_> = x.events.iter().chain(&y.events).map(|(_, e)| e.clone()).collect();
+            v.sort();
+            (e, v)
+        };
+        let same = sorted_fx(&pa1, &pb1) == sorted_fx(&pa2, &pb2)
+            && pa1.resolve == pa2.resolve
+            && pb1.resolve == pb2.resolve
+            && m1.fingerprint() == m2.fingerprint()
+            && !m1.has_zombies()
+            && !pb1.fu_stuck
+            // per-task emission order must not depend on the order either
+            && {
+                let seq = |x: &crate::model::Pred, y: &crate::model::Pred| {
+                    let mut by: BTreeMap<usize, Vec<EvObs>> = BTreeMap::new();
+                    for (g, e) in x.events.iter().chain(&y.events) {
+                        by.entry(*g).or_default().push(e.clone());
+                    }
+                    by
+                };
+                seq(&pa1, &pb1) == seq(&pa2, &pb2)
+            };
+        if !same {
+            return first;
+        }
+    }
+    Action::Batch(vec![a, b])
+}
+
 fn with_slot<T>(slot: usize, f: impl FnOnce() -> T) -> T {
     ops::set_slot(slot as u32);
     f()
@@ -345,6 +432,7 @@ pub fn run_case(
         ..cfg.clone()
     };
     let never_twice = all(|c| c.resolve_never_twice);
+    let batch_cap: u8 = caps.iter().map(|c| c.batch).min().unwrap_or(0);
 
     // ---- start -----------------------------------------------------------
     let mut pre_abort = None;
@@ -456,7 +544,7 @@ pub fn run_case(
                         break;
                     }
                     match a {
-                        Some(a) => a,
+                        Some(a) => maybe_batch(a, &models, rng, &eff_cfg, batch_cap, &mut next_val),
                         None => break,
                     }
                 }
@@ -488,6 +576,7 @@ pub fn run_case(
             Action::Abort { .. } => stats.aborts += 1,
             Action::Noop => stats.noops += 1,
             Action::Extend(_) => stats.extends += 1,
+            Action::Batch(_) => stats.batches += 1,
         }
         let preds: Vec<Pred> = models.iter_mut().map(|m| m.act(&action)).collect();
         let pred = &preds[0];
@@ -571,7 +660,7 @@ pub fn program_handles(c: &Cmd) -> Vec<u32> {
                 go(b, out)
             }
             Cmd::All(xs) | Cmd::Collect(xs) => xs.iter().for_each(|x| go(x, out)),
-            Cmd::MapEvent(c, _) | Cmd::MapEffect(c, _) | Cmd::FromInto(c) => go(c, out),
+            Cmd::MapEvent(c, _) | Cmd::MapEffect(c, _) | Cmd::FromInto(c) | Cmd::Guarded(c, _) => go(c, out),
             // follow-up programs are built later, their handles do not exist at the start
             _ => {}
         }
